@@ -276,7 +276,8 @@ def tract_snap(t):
 
 def desc_snap(d):
     s = {'current_layout': d.current_layout, 'pp_desc': d.pp_desc, 'desc_is_flawed': d.desc_is_flawed,
-         'tracts': [tract_snap(t) for t in d.tracts]}
+         'tracts': [tract_snap(t) for t in d.tracts],
+         'pretty_desc': d.pretty_desc(), 'pretty_desc_tab': d.pretty_desc(word_sec='Section ', justify_linebreaks='\t')}
     for a in FLAG_ATTS:
         s[a] = getattr(d, a)
     return s
